@@ -16,6 +16,8 @@ pub mod c13;
 pub mod c14;
 pub mod c15;
 pub mod c16;
+pub mod c17;
+pub mod c17_san;
 pub mod c18;
 pub mod c19;
 pub mod fmtwork;
@@ -24,7 +26,7 @@ pub mod c09;
 pub mod c09_splice;
 
 pub fn all() -> Vec<PropertyDef> {
-    vec![c01::def(), c02::def(), c03::def(), c04::def(), c05::def(), c06::def(), c07::def(), c08::def(), c09::def(), c10::def(), c11::def(), c12::def(), c13::def(), c14::def(), c15::def(), c16::def(), c18::def(), c19::def()]
+    vec![c01::def(), c02::def(), c03::def(), c04::def(), c05::def(), c06::def(), c07::def(), c08::def(), c09::def(), c10::def(), c11::def(), c12::def(), c13::def(), c14::def(), c15::def(), c16::def(), c17::def(), c18::def(), c19::def()]
 }
 
 pub fn lookup(id: &str) -> Option<PropertyDef> {
